@@ -382,6 +382,8 @@ impl<'de, R: Reader<'de>> Deserializer<R> {
                 let repr = String::from_utf8_lossy(json);
                 // positions in the (longer) lossy copy are mapped back to the input
                 match val.parse_with_padding(repr.as_bytes(), cfg) {
+                    // (a value that ends in the padding chars of the copy ends outside the input)
+                    Ok(n) if n > repr.len() => (json.len() + 1, json.len()),
                     Ok(n) => (lossy_origin_offset(json, n), json.len()),
                     Err(err) => {
                         let index = lossy_origin_offset(json, err.offset());
